@@ -49,6 +49,12 @@ def ops_in(e):
 
 
 def run(ctx):
+    # FASTA conversion stores every row through FastaFile.__setitem__ and reads the recorded line ranges back
+    from .C12 import fasta_append_rules
+    fasta_append_rules(ctx, "R4")
+    # copies made by align_multiple() / the conversions keep the alphabet (decided by value, not by identity)
+    from ..lints import alphabets_compared_by_value
+    alphabets_compared_by_value(ctx, "sequence/seqtypes.py", "R6.alphabet-compared-by-value", 1)
     s = ctx.src(CIG)
     cls = s.cls("CigarOp")
     members = {st.targets[0].id: st.value.value for st in cls.body
@@ -156,6 +162,16 @@ def run(ctx):
            and "operations[insertion_mask] = CigarOp.INSERTION" in wt and "operations[deletion_mask] = CigarOp.DELETION" in wt
            and "ref_trace = alignment.trace[:, reference_index]" in wt and "seg_trace = alignment.trace[:, segment_index]" in wt,
            "an insertion is a gap in the reference, a deletion a gap in the segment", wr.lineno)
+    from ..exprnorm import local_value as _lv
+    rc_, sc_ = _lv(wr, "ref_codes"), _lv(wr, "seg_codes")
+    from ..exprnorm import subst as _subst
+    codes_v = _lv(wr, "symbol_codes")
+    if codes_v is not None and rc_ is not None and sc_ is not None:
+        rc_, sc_ = _subst(rc_, {"symbol_codes": codes_v}), _subst(sc_, {"symbol_codes": codes_v})
+    ctx.ob("R3.match-rows-by-index", CIG, "write_alignment_to_cigar", "ref_codes / seg_codes = get_codes(alignment)[reference_index / segment_index]",
+           rc_ is not None and sc_ is not None and same_expr(rc_, "get_codes(alignment)[reference_index, :]") and same_expr(sc_, "get_codes(alignment)[segment_index, :]"),
+           "'=' and 'X' are decided by comparing the rows given by reference_index and segment_index (not the first two rows); the code uses "
+           + (ast.unparse(rc_)[:60] if rc_ is not None else "?") + " / " + (ast.unparse(sc_)[:60] if sc_ is not None else "?"), wr.lineno)
     ctx.ob("R3.masks", CIG, "write_alignment_to_cigar", "insertion & deletion -> ValueError",
            "np.any(insertion_mask & deletion_mask)" in wt, "a column of gaps only cannot be expressed", wr.lineno, nontrivial=False)
     ctx.ob("R3.clip-choice", CIG, "write_alignment_to_cigar", "clip_op = HARD_CLIP if hard_clip else SOFT_CLIP",
@@ -359,6 +375,8 @@ def run(ctx):
 
 
 MUTANTS = [
+    Mutant("match-rows-first-two", CIG, "        ref_codes = symbol_codes[reference_index, :]\n        seg_codes = symbol_codes[segment_index, :]\n", "        ref_codes = symbol_codes[0, :]\n        seg_codes = symbol_codes[1, :]\n", "R3.match-rows-by-index"),
+    Mutant("copy-alphabet-by-identity", "sequence/seqtypes.py", "        if self._alphabet == NucleotideSequence.alphabet_amb:\n", "        if self._alphabet is NucleotideSequence.alphabet_amb:\n", "R6.alphabet-compared-by-value", count=2),
     Mutant("score-matrix-transposed", ALN, "                    score += matrix[code_i, code_j]\n", "                    score += matrix[code_j, code_i]\n", "R6.substitution-orientation"),
     Mutant("symbols-first-alphabet", ALN, "        alphabet = alignment.sequences[i].get_alphabet()\n", "        alphabet = alignment.sequences[0].get_alphabet()\n", "R6.row-decoded-with-own-alphabet"),
     Mutant("gap-chars-loops-interchanged", FCONV, "    for char in additional_gap_chars:\n        for i, seq_str in enumerate(seq_strings):\n",
